@@ -19,6 +19,7 @@ TFile == E.a = "file" /\ file' = E.state /\ writes' = 0 /\ lastExit' = 0
 TFmt == E.a = "fmt" /\ Fmt /\ E.exit = lastExit' /\ E.modified = (writes' # writes)
 TCheck == E.a = "check" /\ Check /\ E.exit = lastExit' /\ E.modified = FALSE
 TDiff == E.a = "diff" /\ Diff /\ E.exit = lastExit' /\ E.modified = FALSE
+TCheckDiff == E.a = "checkdiff" /\ CheckDiff /\ E.exit = lastExit' /\ E.modified = FALSE
 \* directory sessions ({a:"dir", states:[..]} starts one; {a:"dfmt"|"dcheck", exit, modified:[bool per file]} is one invocation):
 \* during such a session the variable `file` holds the SEQUENCE of file states
 TDir == E.a = "dir" /\ file' = [i \in 1..Len(E.states) |-> E.states[i]] /\ writes' = 0 /\ lastExit' = 0
@@ -29,7 +30,7 @@ TDCheck == /\ E.a = "dcheck" /\ E.exit = DirCheckExit(file) /\ lastExit' = E.exi
            /\ \A i \in DOMAIN file : E.modified[i] = FALSE
            /\ UNCHANGED <<file, writes>>
 TInit == l = 1 /\ file = "clean" /\ writes = 0 /\ lastExit = 0
-TNext == l <= Len(Rec) /\ l' = l + 1 /\ (TRun \/ TFile \/ TFmt \/ TCheck \/ TDiff \/ TDir \/ TDFmt \/ TDCheck)
+TNext == l <= Len(Rec) /\ l' = l + 1 /\ (TRun \/ TFile \/ TFmt \/ TCheck \/ TDiff \/ TCheckDiff \/ TDir \/ TDFmt \/ TDCheck)
 TSpec == TInit /\ [][TNext]_<<l, file, writes, lastExit>>
 Accepted == IF TLCGet("stats").diameter - 1 = Len(Rec) THEN TRUE
             ELSE PrintT(<<"REJECT", ToJson([at |-> TLCGet("stats").diameter, a |-> Rec[TLCGet("stats").diameter].a,
